@@ -7,6 +7,34 @@ instance, new solver factory).  The two results must agree (bitwise; differences
 tolerated and counted), and every array that belonged to a pooled operand before the step must be
 bit-identical after it (lazily *added* attributes are allowed).  In every second program the pooled
 meshes' arrays are read-only: a "read-only" ValueError is a mutation witness.
+
+Strengthening pass (coverage-gap audit):
+ * operands are not only the mesh: every array reachable from a pooled basis / mapping (tabulated basis
+   functions, dx, X, W, DOF tables, cached global coordinates / mesh parameters / normals, cached Jacobians),
+   the *defining* arrays of the element object (class-level ones included) and every array the caller hands
+   over (DOF vectors, points, index sets, tag arrays, quadrature rules) are checksummed around the call and are
+   read-only in the read-only programs (`deep_arrays`, `element_static_arrays`, `Caller`).  A/b of linear systems
+   stay writable (SciPy kernels demand it); tables an element fills lazily are its private business.
+ * pooled Form objects (Bilinear/Linear/Trilinear/Functional, .partial, .block, asm over a list of bases,
+   elemental) whose integrands read w.x, w.h, w.n and a coefficient keyword, assembled on pooled cell and facet
+   bases in random order; the caches are read again afterwards (op `form`, family form-programs).
+ * the facet side: G / detDG / normals of a pooled mapping with changing facet subsets (equal length, other
+   dtype, all facets) and point layouts; facet bases from pooled mesh and element objects (family facet-programs).
+ * derived meshes are KEPT in the pool under generated ids and operated on further (both environments rebuild
+   them from the recorded chain): results that share arrays with their operand, second-order meshes
+   (Mesh.dofs), DG meshes, a wedge mesh.  The ancestors of a derived mesh are operands of every step on it.
+   Mesh surgery on second-order / DG ids is left out (recorded C18 findings) (family derived-programs).
+ * process-wide state (class attributes, module-level tables, memo tables keyed too coarsely) is shared by the
+   pool AND the in-process fresh replay: for a sample of steps the reference digest is computed in a process that
+   has executed nothing else (a child forked from a server that only imported the modules; PYTHONHASHSEED fixed;
+   only steps whose in-process verdict was `bitwise`, never the ARPACK steps).
+ * one caller-owned point/index buffer refilled in place between calls for lbasis and the mapping methods
+   (family buffer-programs); catalogue additions (mesh algebra and conversions, save/load, more connectivity
+   tables, get_dofs / DofsView algebra, project, solver_eigen_scipy, solve with pooled solver and x=, I=,
+   condense with matrix rhs / I= / CSC / complex).
+
+Oracle pitfall recorded while building this: np.asarray(None) (edges of a 2-D mesh) is an object array whose
+bytes are addresses: equal within a process, different across processes; such results are compared by repr.
 """
 from __future__ import annotations
 
@@ -21,13 +49,27 @@ from ..gen import meshes as G
 from ..refmodel import geometry as GEO
 
 PID = "C15"
+FRESH_PROCESS = True
 RULE = ("random programs of 30 (quick) / 120 (thorough) steps drawn from an operation catalogue (basis construction with one "
         "element object on several meshes, lbasis at different point sets of equal size, mapping methods with same-bytes/"
         "different-shape and same-shape/different-dtype arguments, affine lazy attributes, element finder / KD-tree reuse, "
         "element_dofs with and without subset, assembly, point evaluation, solver closures reused across systems of different "
-        "size and per-call keywords, mesh transformations / tagging / refinement, boundary-condition helpers) over a shared "
-        "object pool, each step compared with a fresh replay; distinct key = (operation, cache touched, warm/cold); "
+        "size and per-call keywords, mesh transformations / tagging / refinement / algebra / conversion / save-load, "
+        "boundary-condition helpers, pooled Form objects reading w.x/w.h/w.n/keywords on cell and facet bases, facet maps "
+        "G/detDG/normals, facet bases, get_dofs and DofsView algebra, projection, derived meshes kept in the pool incl. "
+        "second-order/DG/wedge, caller buffers refilled in place) over a shared object pool, each step compared with a "
+        "fresh replay and, for a sample, with a replay in a process that executed nothing else; focused programs over "
+        "1-3 meshes; distinct key = (operation, cache touched, warm/cold); "
         "non-trivial iff the pooled object had been used before with different arguments")
+ASSUMPTIONS = [
+    "a process forked from a server that has only imported numpy/scipy/skfem and the harness modules is a fresh "
+    "interpreter as far as executed operations are concerned (it has executed none)",
+    "tables an element object fills lazily (empty or None right after construction) may be replaced by the element; "
+    "the arrays that are non-empty at construction and class-level arrays are operands and must stay unchanged",
+    "the linear systems A, b handed to solvers stay writable in the read-only programs (SciPy kernels require it)",
+    "mesh surgery on second-order and DG meshes is not exercised here (wrong but history-independent results are "
+    "the subject of C18)",
+]
 TRACK = ["skfem.generic_utils:hash_args", "skfem.mapping.mapping_isoparametric:MappingIsoparametric.J",
          "skfem.element.element_global:ElementGlobal.gbasis", "skfem.element.element_line.element_line_pp:ElementLinePp.lbasis",
          "skfem.element.element_quad.element_quadp:ElementQuadP.lbasis", "skfem.utils:solver_iter_krylov",
@@ -39,7 +81,25 @@ REQUIRED_REACH = ["warm:element-on-second-mesh", "warm:global-element-on-second-
                   "warm:solver-closure-other-size", "warm:solver-closure-per-call-kwargs", "warm:affine-lazy",
                   "warm:basis-reused", "readonly-pass", "retained-basis-reread", "retained:lbasis-other-points",
                   "retained:refinterp", "retained:second-basis-same-length-rule", "composite-basis-components-reused",
-                  "fresh-interpreter-reference"]
+                  "fresh-interpreter-reference",
+                  "warm:form-object-on-other-basis", "warm:basis-default-parameters-reread",
+                  "warm:facet-form-reads-normals", "form:assemble", "form:asm-list", "form:elemental", "form:partial",
+                  "form:block",
+                  "warm:facet-map-other-facet-set", "warm:facet-map-other-facet-set-of-equal-length",
+                  "warm:facet-basis-element-reused",
+                  "facet-map:MappingAffine:G", "facet-map:MappingAffine:detDG", "facet-map:MappingAffine:normals",
+                  "facet-map:MappingIsoparametric:G", "facet-map:MappingIsoparametric:detDG",
+                  "facet-map:MappingIsoparametric:normals",
+                  "derived-mesh-kept-in-pool:order2", "derived-mesh-kept-in-pool:first-order",
+                  "op-on-derived-mesh:order2", "op-on-derived-mesh:first-order",
+                  "fresh-process-reference", "fresh-process-reference:form", "fresh-process-reference:basis",
+                  "fresh-process-reference:global", "fresh-process-reference:lbasis", "fresh-process-reference:mapping",
+                  "fresh-process-reference:transform", "fresh-process-reference:asm", "fresh-process-reference:solve",
+                  "fresh-process-reference:mapping-facet", "fresh-process-reference:facet-basis",
+                  "catalogue:mesh:morphed", "catalogue:mesh:add", "catalogue:mesh:add-touching", "catalogue:mesh:matmul", "catalogue:mesh:mul", "catalogue:mesh:to_simplex", "catalogue:mesh:remove_duplicate_nodes", "catalogue:mesh:remove_unused_nodes", "catalogue:mesh:trace", "catalogue:mesh:with_defaults", "catalogue:mesh:save-load", "catalogue:mesh:save-load-npz", "catalogue:mesh:from_dict", "catalogue:mesh:copy", "catalogue:mesh:edges", "catalogue:mesh:f2e", "catalogue:mesh:boundary_edges", "catalogue:mesh:p2f", "catalogue:mesh:p2e", "catalogue:mesh:satisfying", "catalogue:bc:solve-pooled-direct", "catalogue:bc:solve-pooled-pcg", "catalogue:bc:condense-matrix", "catalogue:bc:condense-I", "catalogue:bc:condense-csc", "catalogue:bc:condense-complex", "catalogue:bc:enforce-matrix", "catalogue:bc:solve-eigen-expand", "catalogue:dofs", "catalogue:project", "eig:solver_eigen_scipy", "warm:same-buffer-refilled-in-place:lbasis", "warm:same-buffer-refilled-in-place:mapping",
+                  "operand:pooled-basis-arrays", "caller-array:quadrature", "caller-array:X", "caller-array:x,y",
+                  "caller-array:adaptive", "caller-array:restrict", "caller-array:remove_elements",
+                  "caller-array:with_boundaries-array", "caller-array:with_subdomains-array"]
 
 
 # ------------------------------------------------------------------ helpers
@@ -52,7 +112,9 @@ def arrays_of(obj, depth=0):
     """(name, ndarray) for the array-valued state of an operand (mesh, matrix, vector, dict of arrays)."""
     import scipy.sparse as sp
     out = []
-    if isinstance(obj, np.ndarray):
+    if isinstance(obj, Held):
+        out += [(n, a) for n, a in obj.arrays.items()]
+    elif isinstance(obj, np.ndarray):
         out.append(("", obj))
         if hasattr(obj, "ori") and obj.ori is not None:
             out.append((".ori", obj.ori))
@@ -84,11 +146,118 @@ def changed(before, objs):
            [k for k in before if k not in after]
 
 
+_EXTRA = ("grad", "div", "curl", "hess", "grad3", "grad4", "grad5", "grad6")
+_SKIP_KEYS = ("mesh", "topo", "elem", "element", "bndelem", "refdom", "brefdom", "elems", "_V_mesh")
+
+
+def deep_arrays(obj, prefix="", depth=0, seen=None):
+    """name -> ndarray for every array reachable from a library object (basis, mapping, DOF object) WITHOUT
+    triggering a lazy computation: instance attributes only, nested skfem objects / lists / tuples / dicts
+    followed; the mesh and the element object are left out (they are snapshotted on their own)."""
+    import scipy.sparse as sp
+    out = {}
+    seen = set() if seen is None else seen
+    if obj is None or depth > 5 or (id(obj) in seen and not isinstance(obj, np.ndarray)):
+        return out
+    seen.add(id(obj))
+    if isinstance(obj, np.ndarray):
+        if obj.dtype != object:
+            out[prefix] = obj
+        for nm in _EXTRA:
+            a = obj.__dict__.get(nm) if hasattr(obj, "__dict__") else None
+            if isinstance(a, np.ndarray):
+                out[prefix + "." + nm] = a
+        ori = getattr(obj, "ori", None)
+        if isinstance(ori, np.ndarray):
+            out[prefix + ".ori"] = ori
+        return out
+    if sp.issparse(obj):
+        for nm in ("data", "indices", "indptr", "row", "col"):
+            if hasattr(obj, nm):
+                out[prefix + "." + nm] = getattr(obj, nm)
+        return out
+    if isinstance(obj, dict):
+        for k, v in obj.items():
+            out.update(deep_arrays(v, f"{prefix}[{k}]", depth + 1, seen))
+        return out
+    if isinstance(obj, (list, tuple)):
+        for i, v in enumerate(obj):
+            out.update(deep_arrays(v, f"{prefix}[{i}]", depth + 1, seen))
+        return out
+    if hasattr(obj, "__dict__") and type(obj).__module__.startswith("skfem"):
+        for k, v in vars(obj).items():
+            if k in _SKIP_KEYS:
+                continue
+            if isinstance(v, (np.ndarray, dict, list, tuple)) or sp.issparse(v) or \
+                    (hasattr(v, "__dict__") and type(v).__module__.startswith("skfem")):
+                out.update(deep_arrays(v, f"{prefix}.{k}", depth + 1, seen))
+    return out
+
+
+def element_static_arrays(e):
+    """The *defining* arrays of an element object: class-level arrays (process-wide!) and the instance arrays that
+    are non-empty right after construction.  Tables an element fills lazily (Legendre tables, inverse Vandermonde
+    matrices) start empty/None, are the element's private business and legitimately get replaced."""
+    out = {}
+    for klass in type(e).__mro__:
+        if klass.__module__.startswith("skfem"):
+            for k, v in vars(klass).items():
+                if isinstance(v, np.ndarray) and v.dtype != object:
+                    out.setdefault("class." + k, v)
+    for k, v in vars(e).items():
+        if isinstance(v, np.ndarray) and v.size > 0 and v.dtype != object:
+            out["." + k] = v
+    for j, sub in enumerate(getattr(e, "elems", None) or ([e.elem] if hasattr(e, "elem") and hasattr(e.elem, "lbasis")
+                                                         else [])):
+        for k, v in element_static_arrays(sub).items():
+            out[f".sub{j}{k}"] = v
+    return out
+
+
+class Held:
+    """A fixed dict of arrays that is an operand (snapshot()/changed() see its entries by name)."""
+
+    def __init__(self, arrays):
+        self.arrays = dict(arrays)
+
+
+class Caller:
+    """Arrays the *caller* creates and hands to the library (DOF vectors, point sets, index arrays, tag arrays,
+    quadrature rules): checksummed before the call and after it; in the read-only programs they are read-only, so
+    a write into them raises instead of going unnoticed."""
+
+    def __init__(self, env):
+        self.env = env
+        self.items = []
+
+    def __call__(self, name, a, readonly=True):
+        a = np.array(a)
+        self.items.append((name, a, digest(a)))
+        if readonly and self.env.pooled and self.env.readonly:
+            a.flags.writeable = False
+        return a
+
+    def mutated(self):
+        return [n for n, a, d in self.items if digest(a) != d]
+
+
+def freeze(arrays):
+    for a in arrays.values():
+        try:
+            if a.flags.owndata or a.base is not None:
+                a.flags.writeable = False
+        except ValueError:
+            pass
+
+
 def flat_result(r):
     """Normalise an operation result to a list of ndarrays."""
     import scipy.sparse as sp
     if r is None:
         return []
+    if isinstance(r, np.ndarray) and r.dtype == object:
+        # (np.asarray(None) and friends: the bytes of an object array are addresses, meaningless across processes)
+        return [np.frombuffer(repr(r.tolist()).encode(), dtype=np.uint8)]
     if isinstance(r, np.ndarray):
         out = [np.asarray(r)]
         if getattr(r, "ori", None) is not None:
@@ -113,6 +282,8 @@ def flat_result(r):
         for x in r:
             out += flat_result(x)
         return out
+    if type(r).__name__ == "COOData":
+        return [np.asarray(r.indices), np.asarray(r.data), np.array([int(v) for v in r.shape], dtype=np.int64)]
     if hasattr(r, "p") and hasattr(r, "t"):  # a mesh
         return flat_result([np.asarray(r.p), np.asarray(r.t), r.boundaries or {}, r.subdomains or {},
                             type(r).__name__])
@@ -152,7 +323,8 @@ class Specs:
     def __init__(self, ctx, rng):
         import skfem
         self.meshes = {}
-        kinds = ["line", "tri", "tri", "quad", "quad", "tet", "hex"]
+        self.derived_max = ctx.scale(3, 5)
+        kinds = ["line", "tri", "tri", "quad", "quad", "tet", "hex", "wedge"]
         for i, kind in enumerate(kinds):
             mc = G.first_order(rng, kind)
             tries = 0
@@ -174,7 +346,7 @@ class Specs:
             self.meshes[f"ws-{kind}{i}"] = dict(kind=kind, cls=type(m), p=np.array(m.p), t=np.array(m.t), sub={}, bnd={},
                                                  affine=True, unit=True)
         self.points = {}
-        for kind in ("line", "tri", "quad", "tet", "hex"):
+        for kind in ("line", "tri", "quad", "tet", "hex", "wedge"):
             for n in (1, 1, 4, 4):
                 self.points.setdefault(kind, []).append(GEO.random_ref_points(rng, kind, n))
         # linear systems of different sizes (SPD)
@@ -196,12 +368,27 @@ class Env:
         self._elem = {}
         self._basis = {}
         self._solver = {}
+        self._form = {}
+        self._elem_static = {}
+        self._buffers = {}
         self.used = {}      # object key -> set of argument fingerprints seen (pool only)
 
     def mesh(self, mid):
         if self.pooled and mid in self._mesh:
             return self._mesh[mid]
         s = self.specs.meshes[mid]
+        if s.get("derived"):
+            # a derived mesh: rebuilt from the recorded chain of operations (the pooled one shares arrays with its
+            # pooled ancestors exactly as the library left them, the fresh one is derived from fresh ancestors)
+            parent, what = s["derived"]
+            m = apply_derive(self.mesh(parent), what)
+            if self.pooled:
+                if self.readonly:
+                    for a in [m.doflocs, m.t] + list((m._subdomains or {}).values()) + list((m._boundaries or {}).values()):
+                        if isinstance(a, np.ndarray):
+                            a.flags.writeable = False
+                self._mesh[mid] = m
+            return m
         p, t = s["p"].copy(), s["t"].copy()
         m = s["cls"](p, t)
         if s["sub"] or s["bnd"]:
@@ -223,7 +410,16 @@ class Env:
         e = EL.by_name(name).make()
         if self.pooled:
             self._elem[name] = e
+            # which arrays define the element is decided now, right after construction (see element_static_arrays)
+            self._elem_static[id(e)] = set(element_static_arrays(e))
+            if self.readonly:
+                freeze({k: v for k, v in element_static_arrays(e).items() if not k.startswith("class.")})
         return e
+
+    def elem_operands(self, e):
+        names = self._elem_static.get(id(e))
+        arrs = element_static_arrays(e)
+        return [Held({k: v for k, v in arrs.items() if names is None or k in names})]
 
     def basis(self, mid, ename):
         import skfem
@@ -232,8 +428,64 @@ class Env:
             return self._basis[key]
         b = skfem.CellBasis(self.mesh(mid), self.elem(ename))
         if self.pooled:
+            if self.readonly:
+                freeze(deep_arrays(b))
             self._basis[key] = b
         return b
+
+    def fbasis(self, mid, ename):
+        """Boundary FacetBasis of a pooled mesh and a pooled element object."""
+        import skfem
+        key = ("facet", mid, ename)
+        if self.pooled and key in self._basis:
+            return self._basis[key]
+        b = skfem.FacetBasis(self.mesh(mid), self.elem(ename))
+        if self.pooled:
+            if self.readonly:
+                freeze(deep_arrays(b))
+            self._basis[key] = b
+        return b
+
+    def sub_basis(self, mid, ename):
+        """The pooled cell basis restricted to the subdomain 's' of the mesh (its own long-lived object)."""
+        key = ("sub", mid, ename)
+        if self.pooled and key in self._basis:
+            return self._basis[key]
+        S = self.specs.meshes[mid]["sub"]["s"].copy()
+        b = self.basis(mid, ename).with_elements(S)
+        if self.pooled:
+            if self.readonly:
+                freeze(deep_arrays(b))
+            self._basis[key] = b
+        return b
+
+    def buffer(self, key, values):
+        """A buffer the caller owns and refills in place between calls (same object, same address, new content):
+        what a time loop does with its point array.  Returns (buffer, reused-with-other-content)."""
+        values = np.asarray(values)
+        if not self.pooled:
+            return np.array(values), False
+        buf = self._buffers.get(key)
+        if buf is None or buf.shape != values.shape or buf.dtype != values.dtype:
+            self._buffers[key] = buf = np.array(values)
+            return buf, False
+        other = not np.array_equal(buf, values)
+        buf[...] = values
+        return buf, other
+
+    def form(self, name):
+        if self.pooled and name in self._form:
+            return self._form[name]
+        f = FORMS[name]()
+        if self.pooled:
+            self._form[name] = f
+        return f
+
+    def basis_operands(self, b):
+        """What a call that only *uses* a basis must leave bit-for-bit unchanged: every array reachable from the basis
+        (tabulated basis functions, dx, X, W, DOF tables, cached global coordinates / mesh parameters / restricted
+        DOF table, the arrays of its mapping object incl. cached Jacobians) and the defining arrays of its element."""
+        return [Held(deep_arrays(b))] + self.elem_operands(b.elem)
 
     def solver(self, name, **kw):
         import skfem.utils as U
@@ -253,12 +505,96 @@ class Env:
         return warm
 
 
+ORDER2 = {"tri": "MeshTri2", "quad": "MeshQuad2", "tet": "MeshTet2", "hex": "MeshHex2"}
+DGCLS = {"tri": "MeshTri1DG", "quad": "MeshQuad1DG", "line": "MeshLine1DG", "hex": "MeshHex1DG"}
+SURGERY = ("refined", "adaptive", "mirrored", "restrict", "remove_elements", "smoothed", "oriented", "morphed", "add",
+           "add-touching", "matmul", "mul", "to_simplex", "remove_duplicate_nodes", "remove_unused_nodes", "trace",
+           "save-load", "save-load-npz", "from_dict")
+
+
+def apply_derive(m, what):
+    import skfem
+    d = m.p.shape[0]
+    if what == "translated":
+        return m.translated(tuple([0.25] * d))
+    if what == "scaled":
+        return m.scaled(tuple([1.5] * d)) if d > 1 else m.scaled(1.5)
+    if what == "with_boundaries":
+        return m.with_boundaries({"new": lambda x: x[0] < np.median(x[0])})
+    if what == "with_subdomains":
+        return m.with_subdomains({"new": lambda x: x[0] < np.median(x[0])})
+    if what == "refined":
+        return m.refined(1)
+    if what.startswith("order2:"):
+        return getattr(skfem, what.split(":")[1]).from_mesh(m)
+    if what.startswith("dg:"):
+        return getattr(skfem, what.split(":")[1]).from_mesh(m)
+    raise ValueError(what)
+
+
+def ancestors(specs, mid):
+    out = []
+    while specs.meshes[mid].get("derived"):
+        mid = specs.meshes[mid]["derived"][0]
+        out.append(mid)
+    return out
+
+
+def op_derive(rng, specs):
+    """A new pooled mesh derived from a pooled one (kept under a generated id and operated on further)."""
+    nder = sum(1 for v in specs.meshes.values() if v.get("derived"))
+    if nder >= specs.derived_max:
+        return dict(full=True)
+    cands = [i for i in _mesh_ids(specs, unit=False) if len(ancestors(specs, i)) < 2]
+    parent = str(rng.choice(cands))
+    sp_ = specs.meshes[parent]
+    kind = sp_["kind"]
+    opts = ["translated", "scaled", "with_boundaries", "with_subdomains"]
+    if not sp_.get("order2") and not sp_.get("dg"):
+        if kind in ORDER2:
+            opts += ["order2:" + ORDER2[kind]] * 3
+        if kind in DGCLS:
+            opts += ["dg:" + DGCLS[kind]]
+        if sp_["t"].shape[1] <= 12:
+            opts += ["refined"]
+    what = str(rng.choice(opts))
+    return dict(parent=parent, what=what, did=f"{parent}>{what.split(':')[0]}#{nder}")
+
+
+def run_derive(env, a):
+    if a.get("full"):
+        raise Skip("derived-pool-full")
+    specs = env.specs
+    parent = env.mesh(a["parent"])
+    out = apply_derive(parent, a["what"])
+    sp_ = specs.meshes[a["parent"]]
+    if not env.pooled and a["did"] not in specs.meshes:
+        # (the fresh replay runs first) register the primitive description both environments build from
+        o2, dg = a["what"].startswith("order2:") or bool(sp_.get("order2")), a["what"].startswith("dg:") or bool(sp_.get("dg"))
+        first = not (o2 or dg)
+        specs.meshes[a["did"]] = dict(
+            kind=sp_["kind"], cls=type(out), derived=(a["parent"], a["what"]), order2=o2, dg=dg,
+            p=np.array(out.p) if first else sp_["p"], t=np.array(out.t) if first else sp_["t"],
+            sub={k: np.array(v) for k, v in (out.subdomains or {}).items()},
+            bnd={k: np.array(v) for k, v in (out.boundaries or {}).items()},
+            affine=bool(sp_["affine"]) and first)
+    if env.pooled and a["did"] in specs.meshes:
+        if env.readonly:
+            for arr in [out.doflocs, out.t] + list((out._subdomains or {}).values()) + list((out._boundaries or {}).values()):
+                if isinstance(arr, np.ndarray):
+                    arr.flags.writeable = False
+        env._mesh[a["did"]] = out
+    kindflag = "order2" if a["what"].startswith("order2:") else ("dg" if a["what"].startswith("dg:") else "first-order")
+    return out, [parent], {"derived-mesh-kept-in-pool:" + kindflag: True}, ("derive:" + a["what"], "aliasing", False)
+
+
 ELEMS_BY_KIND = {
     "line": ["ElementLineP1", "ElementLineP2", "ElementLinePp(3)", "ElementLinePp(5)", "ElementLineMini"],
     "tri": ["ElementTriP1", "ElementTriP2", "ElementTriRT1", "ElementTriN1", "ElementTriP1B", "ElementTriCR"],
     "quad": ["ElementQuad1", "ElementQuad2", "ElementQuadP(3)", "ElementQuadP(4)", "ElementQuadRT1"],
     "tet": ["ElementTetP1", "ElementTetP2", "ElementTetRT1", "ElementTetN1"],
     "hex": ["ElementHex1", "ElementHex2", "ElementHexRT1"],
+    "wedge": ["ElementWedge1"],
 }
 GLOBAL_BY_KIND = {
     "line": ["ElementLineHermite"],
@@ -278,19 +614,32 @@ def _mesh_ids(specs, kinds=None, unit=None):
 def op_basis(rng, specs):
     mid = str(rng.choice(_mesh_ids(specs, unit=False)))
     kind = specs.meshes[mid]["kind"]
-    return dict(mid=mid, ename=str(rng.choice(ELEMS_BY_KIND[kind])))
+    return dict(mid=mid, ename=str(rng.choice(ELEMS_BY_KIND[kind])), quad=bool(rng.random() < 0.25))
+
+
+def pre_elem(env, a):
+    return env.elem_operands(env.elem(a["ename"]))
 
 
 def run_basis(env, a):
     import skfem
     m, e = env.mesh(a["mid"]), env.elem(a["ename"])
-    b = skfem.CellBasis(m, e)
+    c = Caller(env)
+    if a.get("quad"):
+        # a caller-supplied quadrature rule: the basis stores it, it must not write into it
+        kind = env.specs.meshes[a["mid"]]["kind"]
+        X = c("quadrature-X", env.specs.points[kind][-1])
+        W = c("quadrature-W", np.full(X.shape[1], 0.125))
+        b = skfem.CellBasis(m, e, quadrature=(X, W))
+    else:
+        b = skfem.CellBasis(m, e)
     warm = env.note(("elem", a["ename"]), a["mid"])
     res = [np.array(b.basis[0][0]), np.array(b.basis[-1][0]), b.dx, np.asarray(b.element_dofs)]
     g = b.basis[-1][0].grad
     if g is not None:
         res.append(g)
-    return res, [m], {"warm:element-on-second-mesh": warm}, ("basis", "element-object", warm)
+    return res, [m], {"warm:element-on-second-mesh": warm, "__mutated__": c.mutated(),
+                      "caller-array:quadrature": bool(a.get("quad"))}, ("basis", "element-object", warm)
 
 
 def op_global(rng, specs):
@@ -320,26 +669,37 @@ def run_global(env, a):
 
 
 def op_lbasis(rng, specs):
-    kind = str(rng.choice(["line", "quad", "tri", "line", "quad"]))
-    ename = str(rng.choice(ELEMS_BY_KIND[kind]))
-    return dict(kind=kind, ename=ename, pts=int(rng.integers(len(specs.points[kind]))), i=int(rng.integers(0, 3)))
+    kind = str(rng.choice(getattr(specs, "lbasis_kinds", None) or ["line", "quad", "tri", "line", "quad"]))
+    ename = str(rng.choice(ELEMS_BY_KIND[kind][:getattr(specs, "lbasis_nelems", None)]))
+    return dict(kind=kind, ename=ename, pts=int(rng.integers(len(specs.points[kind]))), i=int(rng.integers(0, 3)),
+                inplace=bool(rng.random() < getattr(specs, "inplace_bias", 0.4)))
 
 
 def run_lbasis(env, a):
     e = env.elem(a["ename"])
-    X = env.specs.points[a["kind"]][a["pts"]].copy()
+    c = Caller(env)
+    refilled = False
+    if a.get("inplace"):
+        X, refilled = env.buffer(("lbasis-X", a["kind"]), env.specs.points[a["kind"]][a["pts"]])
+        d0 = digest(X)
+    else:
+        X = c("X", env.specs.points[a["kind"]][a["pts"]])
     phi, dphi = e.lbasis(X, a["i"])
     warm = env.note(("lbasis", a["ename"], X.shape[1]), a["pts"])
-    return [np.array(phi) + 0 * X[0], np.array(dphi)], [], {"warm:lbasis-same-count-other-points": warm}, \
+    mut = c.mutated() + (["X(in-place buffer)"] if a.get("inplace") and digest(X) != d0 else [])
+    return [np.array(phi) + 0 * X[0], np.array(dphi)], [], {"warm:lbasis-same-count-other-points": warm,
+                                                            "warm:same-buffer-refilled-in-place:lbasis": refilled and warm,
+                                                            "__mutated__": mut, "caller-array:X": True}, \
         ("lbasis", "tables", warm)
 
 
 def op_mapping(rng, specs):
-    mid = str(rng.choice(_mesh_ids(specs, kinds=["tri", "quad", "tet", "hex"], unit=False)))
+    mid = str(rng.choice(_mesh_ids(specs, kinds=["tri", "quad", "tet", "hex", "wedge"], unit=False)))
     return dict(mid=mid, meth=str(rng.choice(["F", "DF", "invDF", "detDF", "invF"])),
-                xvar=str(rng.choice(["shared", "percell", "percell-1pt", "shared-1pt"])),
-                tvar=str(rng.choice(["int32-two", "int64-one", "int32-one", "none"])),
-                iso=bool(rng.random() < 0.7))
+                xvar=str(rng.choice(getattr(specs, "mapping_xvars", None) or ["shared", "percell", "percell-1pt", "shared-1pt"])),
+                tvar=str(rng.choice(getattr(specs, "mapping_tvars", None) or ["int32-two", "int64-one", "int32-one", "none"])),
+                iso=bool(rng.random() < 0.7), inplace=bool(rng.random() < getattr(specs, "inplace_bias", 0.35)),
+                shift=int(rng.integers(3)))
 
 
 def run_mapping(env, a):
@@ -369,8 +729,20 @@ def run_mapping(env, a):
         Xp = np.repeat(base[:, :1, None], nc, axis=1).copy() if nc != 2 else base.reshape(d, 2, 1).copy()
     else:
         Xp = np.repeat(base[:, None, :], nc, axis=1).copy()
+    c = Caller(env)
+    refilled = False
+    if a.get("inplace"):
+        # the same point buffer refilled in place (another content at the same address, same shape)
+        Xp, refilled = env.buffer(("mapping-X", a["mid"], Xp.shape), Xp + 0.0625 * a.get("shift", 0))
+        d0 = digest(Xp)
+        if tv is not None:
+            tv = env.buffer(("mapping-tind", a["mid"], a["tvar"]), tv)[0]     # (the caller's index buffer, too)
+    else:
+        Xp = c("X", Xp)
+    if tv is not None and not a.get("inplace"):
+        tv = c("tind", tv)
     if a["meth"] == "invF":
-        x = mp.F(Xp, tv)
+        x = c("x", mp.F(Xp, tv))
         out = mp.invF(x, tv)
     else:
         out = getattr(mp, a["meth"])(Xp, tv)
@@ -379,12 +751,14 @@ def run_mapping(env, a):
     flags = {}
     if type(mp).__name__ == "MappingIsoparametric":
         seen = env.used[("mapping", a["mid"], a["iso"])]
-        if warm and any(x[0] != a["xvar"] for x in seen):
+        if warm and any(x[0] != a["xvar"] for x in seen if len(x) == 2):
             flags["warm:jacobian-cache-same-bytes-other-shape"] = True
-        if warm and any(x[1] != a["tvar"] for x in seen):
+        if warm and any(x[1] != a["tvar"] for x in seen if len(x) == 2):
             flags["warm:jacobian-cache-other-dtype"] = True
     else:
         flags["warm:affine-lazy"] = warm
+    flags["__mutated__"] = c.mutated() + (["X(in-place buffer)"] if a.get("inplace") and digest(Xp) != d0 else [])
+    flags["warm:same-buffer-refilled-in-place:mapping"] = refilled
     return [np.asarray(out)], [m], flags, ("mapping:" + a["meth"], type(mp).__name__, warm)
 
 
@@ -400,9 +774,11 @@ def run_finder(env, a):
     cells = r.integers(0, m.t.shape[1], size=3)
     X = GEO.random_ref_points(r, s["kind"], 3)
     x = np.stack([GEO.map_points(s["kind"], s["p"], s["t"], X[:, j:j + 1], np.array([cells[j]]))[:, 0, 0] for j in range(3)], axis=1)
+    c = Caller(env)
+    x = c("x", x)
     out = m.element_finder()(*x)
     warm = env.note(("finder", a["mid"]), a["seed"])
-    return [np.asarray(out)], [m], {"warm:kd-tree": warm}, ("finder", "kd-tree", warm)
+    return [np.asarray(out)], [m], {"warm:kd-tree": warm, "__mutated__": c.mutated()}, ("finder", "kd-tree", warm)
 
 
 def op_asm(rng, specs):
@@ -417,6 +793,7 @@ def run_asm(env, a):
     from .c04 import generic_mass
     b = env.basis(a["mid"], a["ename"])
     m = env.mesh(a["mid"])
+    c = Caller(env)
     warm = env.note(("basis", a["mid"], a["ename"]), (a["what"], a["seed"]))
     if a["what"] == "mass":
         res = skfem.BilinearForm(generic_mass).assemble(b)
@@ -424,14 +801,19 @@ def run_asm(env, a):
         res = [np.asarray(b.element_dofs), np.asarray(b.dofs.element_dofs)]
     elif a["what"] == "subset":
         S = env.specs.meshes[a["mid"]]["sub"].get("s")
-        b2 = b.with_elements(S) if S is not None else b
+        b2 = b.with_elements(c("elements", S)) if S is not None else b
         res = [np.asarray(b2.element_dofs), b2.dx, np.asarray(b.element_dofs)]
     else:
-        y = np.random.default_rng(7).standard_normal(b.N)
+        y = c("y", np.random.default_rng(7).standard_normal(b.N))
         f = b.interpolate(y)
         f = f if isinstance(f, tuple) else (f,)
         res = [np.array(x) for x in f]
-    return res, [m], {"warm:basis-reused": warm}, ("basis-use:" + a["what"], "basis", warm)
+    return res, [m], {"warm:basis-reused": warm, "__mutated__": c.mutated(), "operand:pooled-basis-arrays": True}, \
+        ("basis-use:" + a["what"], "basis", warm)
+
+
+def pre_basis_use(env, a):
+    return env.basis_operands(env.basis(a["mid"], a["ename"]))
 
 
 def op_probe(rng, specs):
@@ -447,11 +829,13 @@ def run_probe(env, a):
     r = np.random.default_rng(a["seed"])
     c = int(r.integers(0, m.t.shape[1]))
     X = GEO.random_ref_points(r, s["kind"], 1)
-    x = GEO.map_points(s["kind"], s["p"], s["t"], X, np.array([c]))[:, 0, :]
-    y = np.random.default_rng(11).standard_normal(b.N)
+    ca = Caller(env)
+    x = ca("x", GEO.map_points(s["kind"], s["p"], s["t"], X, np.array([c]))[:, 0, :])
+    y = ca("y", np.random.default_rng(11).standard_normal(b.N))
     out = b.interpolator(y)(x)
     warm = env.note(("probe", a["mid"], a["ename"]), a["seed"])
-    return [np.asarray(out)], [m], {"warm:lbasis-same-count-other-points": warm and a["ename"].startswith(("ElementLinePp", "ElementQuadP"))}, \
+    return [np.asarray(out)], [m], {"warm:lbasis-same-count-other-points": warm and a["ename"].startswith(("ElementLinePp", "ElementQuadP")),
+                                    "__mutated__": ca.mutated(), "caller-array:x,y": True}, \
         ("probe", "element-tables", warm)
 
 
@@ -486,7 +870,8 @@ def _cg_has_rtol():
 
 
 def op_eig(rng, specs):
-    return dict(name="solver_eigen_scipy_sym", k=int(rng.choice([0, 2, 3])), sysid=1)
+    return dict(name=str(rng.choice(["solver_eigen_scipy_sym", "solver_eigen_scipy_sym", "solver_eigen_scipy"])),
+                k=int(rng.choice([0, 2, 3])), sysid=1)
 
 
 def run_eig(env, a):
@@ -496,14 +881,20 @@ def run_eig(env, a):
     lam, _ = s(A, M, **call_kw)
     warm = env.note(("solver", a["name"]), ("k", a["k"]))
     return [np.sort(np.asarray(lam).real).round(9), np.array(len(lam))], [A, M], \
-        {"warm:solver-closure-per-call-kwargs": warm}, ("eig", "closure-kwargs", warm)
+        {"warm:solver-closure-per-call-kwargs": warm, "eig:" + a["name"]: True}, ("eig:" + a["name"], "closure-kwargs", warm)
+
+
+TRANSFORM_EXTRA = ["morphed", "add", "add-touching", "matmul", "mul", "to_simplex", "remove_duplicate_nodes",
+                   "remove_unused_nodes", "trace", "with_defaults", "save-load", "save-load-npz", "from_dict", "copy", "edges",
+                   "f2e", "boundary_edges", "p2f", "p2e", "satisfying"]
 
 
 def op_transform(rng, specs):
     mid = str(rng.choice(_mesh_ids(specs, unit=False)))
     return dict(mid=mid, what=str(rng.choice(["refined", "translated", "scaled", "mirrored", "with_boundaries",
                                                 "with_subdomains", "restrict", "facets", "f2t", "boundary", "adaptive",
-                                                "save-dict", "params", "remove_elements", "smoothed", "oriented"])))
+                                                "save-dict", "params", "remove_elements", "smoothed", "oriented",
+                                                "with_boundaries-array", "with_subdomains-array"] + TRANSFORM_EXTRA)))
 
 
 def run_transform(env, a):
@@ -511,6 +902,11 @@ def run_transform(env, a):
     s = env.specs.meshes[a["mid"]]
     d = m.p.shape[0]
     w = a["what"]
+    c = Caller(env)
+    if (s.get("order2") or s.get("dg")) and w in SURGERY:
+        raise Skip("surgery-on-second-order-or-dg-mesh(C18)")
+    if s.get("derived"):
+        env.used.setdefault("__flags__", set())
     if w == "refined":
         if m.t.shape[1] > 60:
             raise Skip("too-large")
@@ -518,7 +914,7 @@ def run_transform(env, a):
     elif w == "adaptive":
         if s["kind"] not in ("tri", "line", "tet") or m.t.shape[1] > 60:
             raise Skip("no-adaptive")
-        out = m.refined(np.array([0, min(2, m.t.shape[1] - 1)]))
+        out = m.refined(c("marked", np.array([0, min(2, m.t.shape[1] - 1)])))
     elif w == "translated":
         out = m.translated(tuple([0.5] * d))
     elif w == "scaled":
@@ -532,10 +928,16 @@ def run_transform(env, a):
         out = m.with_boundaries({"new": lambda x: x[0] < np.median(x[0])})
     elif w == "with_subdomains":
         out = m.with_subdomains({"new": lambda x: x[0] < np.median(x[0])})
+    elif w == "with_boundaries-array":
+        bf = np.asarray(m.boundary_facets())
+        out = m.with_boundaries({"new": c("boundaries[new]", bf[: max(1, len(bf) // 2)]),
+                                 "two": c("boundaries[two]", bf[-1:].astype(np.int64))})
+    elif w == "with_subdomains-array":
+        out = m.with_subdomains({"new": c("subdomains[new]", np.arange(max(1, m.t.shape[1] // 2), dtype=np.int32))})
     elif w == "restrict":
-        out = m.restrict(np.arange(max(1, m.t.shape[1] // 2)))
+        out = m.restrict(c("elements", np.arange(max(1, m.t.shape[1] // 2))))
     elif w == "remove_elements":
-        out = m.remove_elements(np.array([0]))
+        out = m.remove_elements(c("elements", np.array([0])))
     elif w == "smoothed":
         if s["kind"] not in ("tri", "tet"):
             raise Skip("no-smoothing")
@@ -544,6 +946,71 @@ def run_transform(env, a):
         if s["kind"] not in ("tri", "tet"):
             raise Skip("no-orientation")
         out = m.oriented()
+    elif w == "morphed":
+        out = m.morphed(*[(lambda p, i=i: p[i] * 1.25 + 0.125 * p[0]) for i in range(d)])
+    elif w == "add":
+        out = m + m.translated(tuple([8.0] * d))
+    elif w == "add-touching":
+        out = m + m.mirrored(tuple([1.0] + [0.0] * (d - 1)))
+    elif w == "matmul":
+        out = m @ m.translated(tuple([8.0] * d))
+    elif w == "mul":
+        if s["kind"] not in ("line", "tri"):
+            raise Skip("no-product")
+        import skfem
+        out = m * skfem.MeshLine(np.array([0., .5, 1.]))
+    elif w == "to_simplex":
+        if s["kind"] not in ("quad", "hex", "wedge"):
+            raise Skip("already-simplicial")
+        out = m.to_meshtri() if s["kind"] == "quad" else m.to_meshtet()
+    elif w == "remove_duplicate_nodes":
+        out = m.remove_duplicate_nodes()
+    elif w == "remove_unused_nodes":
+        out = m.restrict(np.arange(max(1, m.t.shape[1] // 2))).remove_unused_nodes()
+    elif w == "trace":
+        out = list(m.trace(c("facets", np.asarray(m.boundary_facets())[:3])))
+    elif w == "with_defaults":
+        out = m.with_defaults()
+    elif w in ("save-load", "save-load-npz"):
+        import contextlib
+        import io
+        import tempfile
+        if w == "save-load" and s["kind"] not in ("tet", "hex"):
+            raise Skip("no-meshio-type")     # (1-D: meshio exits; 2-D: VTK pads the points and prints a warning)
+        with tempfile.TemporaryDirectory() as td, contextlib.redirect_stdout(io.StringIO()), \
+                contextlib.redirect_stderr(io.StringIO()):
+            fn = os.path.join(td, "m.vtk" if w == "save-load" else "m.npz")
+            try:
+                if w == "save-load":
+                    m.save(fn)
+                    out = type(m).load(fn)
+                else:
+                    m.save_npz(fn)
+                    out = type(m).load_npz(fn)
+            except SystemExit as e:      # meshio reports a failed read through sys.exit
+                raise RuntimeError("meshio exit") from e
+    elif w == "from_dict":
+        out = type(m).from_dict(m.to_dict())
+    elif w == "copy":
+        out = m.copy()
+    elif w == "edges":
+        if m.edges is None:
+            raise Skip("no-edges-below-3D")
+        out = [np.asarray(m.edges), np.asarray(m.t2e)]
+    elif w == "f2e":
+        if m.f2e is None:
+            raise Skip("no-edges-below-3D")
+        out = [np.asarray(m.f2e)]
+    elif w == "boundary_edges":
+        out = [np.asarray(m.boundary_edges())]
+    elif w == "p2f":
+        out = [m.p2f, m.p2t]
+    elif w == "p2e":
+        out = [m.p2e, m.e2t]
+    elif w == "satisfying":
+        out = [np.asarray(m.nodes_satisfying(lambda x: x[0] < np.median(x[0]))),
+               np.asarray(m.facets_satisfying(lambda x: x[0] < np.median(x[0]), boundaries_only=True)),
+               np.asarray(m.elements_satisfying(lambda x: x[0] < np.median(x[0])))]
     elif w == "facets":
         out = [np.asarray(m.facets), np.asarray(m.t2f)]
     elif w == "f2t":
@@ -556,11 +1023,17 @@ def run_transform(env, a):
         dct = m.to_dict()
         out = [np.asarray(dct["p"]), np.asarray(dct["t"])]
     warm = env.note(("mesh", a["mid"]), w)
-    return out, [m], {}, ("mesh:" + w, "lazy-mesh-attributes", warm)
+    return out, [m], {"__mutated__": c.mutated(), "caller-array:" + w: bool(c.items),
+                      "catalogue:mesh:" + w: w in TRANSFORM_EXTRA}, ("mesh:" + w, "lazy-mesh-attributes", warm)
+
+
+BC_EXTRA = ["solve-pooled-direct", "solve-pooled-pcg", "condense-matrix", "condense-I", "condense-csc", "condense-complex",
+            "enforce-matrix", "solve-eigen-expand"]
 
 
 def op_bc(rng, specs):
-    return dict(sysid=int(rng.integers(len(specs.systems))), what=str(rng.choice(["condense", "enforce", "penalize", "solve"])))
+    return dict(sysid=int(rng.integers(len(specs.systems))),
+                what=str(rng.choice(["condense", "enforce", "penalize", "solve"] + BC_EXTRA)))
 
 
 def run_bc(env, a):
@@ -576,6 +1049,28 @@ def run_bc(env, a):
         out = list(skfem.enforce(A, b, x=x, D=D))
     elif a["what"] == "penalize":
         out = list(skfem.penalize(A, b, x=x, D=D))
+    elif a["what"] == "solve-pooled-direct":
+        Ac, bc, xr, I = skfem.condense(A, b, x=x, D=D)
+        out = [skfem.solve(Ac, bc, x=xr, I=I, solver=env.solver("solver_direct_scipy"))]
+    elif a["what"] == "solve-pooled-pcg":
+        Ac, bc, xr, I = skfem.condense(A, b, x=x, D=D)
+        kw = {"rtol": 1e-12} if _cg_has_rtol() else {"tol": 1e-12}
+        out = [skfem.solve(Ac, bc, x=xr, I=I, solver=env.solver("solver_iter_pcg", **kw))]
+    elif a["what"] == "condense-matrix":
+        out = list(skfem.condense(A, M, D=D))
+    elif a["what"] == "condense-I":
+        out = list(skfem.condense(A, b, x=x, I=np.arange(1, n - 1)))
+    elif a["what"] == "condense-csc":
+        out = list(skfem.condense(A.tocsc(), b, x=x, D=D))
+    elif a["what"] == "condense-complex":
+        out = list(skfem.condense((A * (1 + 0.5j)).tocsr(), b * (1 - 0.25j), x=x * 1j, D=D))
+    elif a["what"] == "enforce-matrix":
+        out = list(skfem.enforce(A, M, D=D))
+    elif a["what"] == "solve-eigen-expand":
+        if n < 6:
+            raise Skip("too-small-for-arpack")
+        lam, X = skfem.solve(*skfem.condense(A, M, D=D), solver=env.solver("solver_eigen_scipy_sym", sigma=0.0), k=2)
+        out = [np.sort(np.asarray(lam)).round(9), np.asarray(X.shape), np.asarray(X[D])]
     else:
         out = [skfem.solve(*skfem.condense(A, b, x=x, D=D))]
     # the prescribed-values vector and the index set are operands too
@@ -584,13 +1079,318 @@ def run_bc(env, a):
         mutated.append("x")
     if not np.array_equal(D, np.array([0, n - 1])):
         mutated.append("D")
-    return out, [A, b, x, D], {"__mutated__": mutated}, ("bc:" + a["what"], "operands", False)
+    return out, [A, b, x, D], {"__mutated__": mutated, "catalogue:bc:" + a["what"]: a["what"] in BC_EXTRA}, \
+        ("bc:" + a["what"], "operands", False)
 
 
-OPS = [("basis", op_basis, run_basis, 3), ("global", op_global, run_global, 3), ("lbasis", op_lbasis, run_lbasis, 3),
+# ---- pooled Form objects whose integrands read the basis-level caches (w.x, w.h, w.n) and a coefficient keyword
+def _sc(f):
+    v = np.asarray(f)
+    while v.ndim > 2:
+        v = v.sum(axis=0)
+    return v
+
+
+def _forms():
+    import skfem
+
+    def bil_scaled(u, v, w, scale=1.0, shift=0.0):
+        return scale * u * v + shift * u * v * w.x[0]
+
+    def bil_2x2(u1, u2, v1, v2, w):
+        return u1 * v1 + 2.0 * u2 * v2 * w.x[0] + 3.0 * u1 * v2 + 5.0 * u2 * v1 * w.h
+
+    return {
+        "bil-xh": lambda: skfem.BilinearForm(lambda u, v, w: _sc(u) * _sc(v) * (1.0 + w.x[0]) * w.h),
+        "bil-k": lambda: skfem.BilinearForm(lambda u, v, w: _sc(u) * _sc(v) * (0.5 + _sc(w["k"]))),
+        "lin-xh": lambda: skfem.LinearForm(lambda v, w: _sc(v) * (w.x[0] + w.h)),
+        "lin-k": lambda: skfem.LinearForm(lambda v, w: _sc(v) * _sc(w["k"]) * w.x[-1]),
+        "fun-xh": lambda: skfem.Functional(lambda w: w.x[0] * w.h + w.x[-1] ** 2),
+        "fun-k": lambda: skfem.Functional(lambda w: _sc(w["k"]) * (1.0 + w.x[0])),
+        "tri-x": lambda: skfem.TrilinearForm(lambda u, v, q, w: u * v * q * (1.0 + w.x[0])),
+        "bil-scaled": lambda: skfem.BilinearForm(bil_scaled),
+        "bil-2x2": lambda: skfem.BilinearForm(bil_2x2),
+        "bil-n": lambda: skfem.BilinearForm(lambda u, v, w: _sc(u) * _sc(v) * (1.5 + w.n[0]) * (1.0 + w.h)),
+        "lin-n": lambda: skfem.LinearForm(lambda v, w: _sc(v) * (w.n[0] + 0.5 * w.x[0] * w.n[-1])),
+        "fun-n": lambda: skfem.Functional(lambda w: w.n[0] * w.x[0] + w.n[-1] * w.x[-1] + w.h),
+        "fun-nk": lambda: skfem.Functional(lambda w: (w.n[0] + 2.0) * _sc(w["k"])),
+    }
+
+
+class _Forms(dict):
+    def __missing__(self, key):
+        self.update(_forms())
+        return self[key]
+
+
+FORMS = _Forms()
+CELL_FORMS = ["bil-xh", "bil-k", "lin-xh", "lin-k", "fun-xh", "fun-k", "tri-x", "bil-scaled", "bil-2x2"]
+FACET_FORMS = ["bil-n", "lin-n", "fun-n", "fun-nk", "bil-xh", "lin-k"]
+SCALAR_ELEMS = {"line": ["ElementLineP1", "ElementLineP2"], "tri": ["ElementTriP1", "ElementTriP2"],
+                "quad": ["ElementQuad1", "ElementQuad2"], "tet": ["ElementTetP1", "ElementTetP2"], "hex": ["ElementHex1"], "wedge": ["ElementWedge1"]}
+P1_ELEMS = {"line": "ElementLineP1", "tri": "ElementTriP1", "quad": "ElementQuad1", "tet": "ElementTetP1", "hex": "ElementHex1",
+            "wedge": "ElementWedge1"}
+
+
+def op_form(rng, specs):
+    where = str(rng.choice(["cell", "cell", "facet"]))
+    mid = str(rng.choice(_mesh_ids(specs, kinds=None if where == "cell" else ["tri", "quad", "tet", "hex"], unit=False)))
+    kind = specs.meshes[mid]["kind"]
+    fname = str(rng.choice(CELL_FORMS if where == "cell" else FACET_FORMS))
+    how = str(rng.choice(["assemble", "assemble", "asm-list", "elemental"]))
+    if fname == "tri-x":
+        ename, how = P1_ELEMS[kind], "assemble"
+    elif fname in ("bil-scaled", "bil-2x2"):
+        ename = str(rng.choice(SCALAR_ELEMS[kind]))
+        how = "partial" if fname == "bil-scaled" else "block"
+    else:
+        ename = str(rng.choice(ELEMS_BY_KIND[kind]))
+    if where == "facet" and how == "asm-list":
+        how = "assemble"
+    return dict(mid=mid, ename=ename, where=where, fname=fname, how=how, kseed=int(rng.integers(4)),
+                ij=[int(rng.integers(2)), int(rng.integers(2))], scale=float(rng.choice([0.5, 2.5])))
+
+
+def _form_basis(env, a):
+    return env.basis(a["mid"], a["ename"]) if a["where"] == "cell" else env.fbasis(a["mid"], a["ename"])
+
+
+def pre_form(env, a):
+    objs = env.basis_operands(_form_basis(env, a))
+    if a["how"] == "asm-list":
+        objs += env.basis_operands(env.sub_basis(a["mid"], a["ename"]))
+    return objs
+
+
+def run_form(env, a):
+    import skfem
+    b = _form_basis(env, a)
+    m = env.mesh(a["mid"])
+    f = env.form(a["fname"])
+    c = Caller(env)
+    kw = {}
+    if a["fname"].endswith("k"):
+        r = np.random.default_rng(100 + a["kseed"])
+        if a["kseed"] % 2 or a["how"] == "asm-list":
+            kw["k"] = c("k(dof-array)", r.integers(-8, 9, size=b.N) / 8)          # interpolated by the library
+        else:
+            kw["k"] = c("k(quadrature-array)", r.integers(-8, 9, size=b.dx.shape) / 8)
+    how = a["how"]
+    if how == "assemble":
+        res = [f.assemble(b, **kw)]
+    elif how == "asm-list":
+        res = [skfem.asm(f, [env.sub_basis(a["mid"], a["ename"]), b], **kw)]
+    elif how == "elemental":
+        res = [f.elemental(b, **kw)]
+    elif how == "partial":
+        g = f.partial(scale=a["scale"], shift=0.25)
+        res = [g.assemble(b), f.assemble(b)]           # the form it was derived from is still the original one
+    else:
+        g = f.block(*a["ij"])
+        res = [g.assemble(b), f.block(1 - a["ij"][0], a["ij"][1]).elemental(b)]
+    # the caches every assembly was handed, read again afterwards
+    res += [np.array(b.global_coordinates()), np.array(b.mesh_parameters()), np.array(b.dx)]
+    if a["where"] == "facet":
+        res.append(np.array(b.normals))
+    warm_form = env.note(("form", a["fname"]), (a["where"], a["mid"], a["ename"]))
+    warm_basis = env.note(("basis-params", a["where"], a["mid"], a["ename"]), (a["fname"], a["how"], a["kseed"]))
+    flags = {"warm:form-object-on-other-basis": warm_form, "warm:basis-default-parameters-reread": warm_basis,
+             "warm:facet-form-reads-normals": warm_basis and a["where"] == "facet",
+             "form:" + how: True, "__mutated__": c.mutated()}
+    return res, [m], flags, ("form:" + a["fname"] + ":" + how, "form-object+basis-caches", warm_form or warm_basis)
+
+
+# ---- the facet side of mappings and bases
+def op_mapping_facet(rng, specs):
+    mid = str(rng.choice(_mesh_ids(specs, kinds=["tri", "quad", "tet", "hex"], unit=False)))
+    return dict(mid=mid, meth=str(rng.choice(["G", "detDG", "normals"])),
+                xvar=str(rng.choice(["shared", "perfacet", "shared-1pt", "perfacet-1pt"])),
+                fvar=str(rng.choice(["A", "B", "none", "A64"])), iso=bool(rng.random() < 0.6))
+
+
+def _facet_sets(m):
+    bf = np.asarray(m.boundary_facets())
+    h = max(1, len(bf) // 2)
+    return {"A": bf[:h].astype(np.int32), "B": bf[-h:].astype(np.int32), "A64": bf[:h].astype(np.int64), "none": None}, bf
+
+
+def _pooled_mapping(env, a):
+    from skfem.mapping import MappingIsoparametric, MappingAffine
+    m = env.mesh(a["mid"])
+    s = env.specs.meshes[a["mid"]]
+    mk = (lambda: MappingIsoparametric(m, m.elem(), m.bndelem) if (a["iso"] or not s["affine"]) else MappingAffine(m))
+    if not env.pooled:
+        return mk()
+    key = ("mapping", a["mid"], a["iso"])
+    mp = env._basis.get(key)
+    if mp is None:
+        mp = env._basis[key] = mk()
+    return mp
+
+
+def pre_mapping(env, a):
+    return [Held(deep_arrays(_pooled_mapping(env, a)))]
+
+
+def run_mapping_facet(env, a):
+    m = env.mesh(a["mid"])
+    s = env.specs.meshes[a["mid"]]
+    d = GEO.REFDIM[s["kind"]]
+    mp = _pooled_mapping(env, a)
+    c = Caller(env)
+    sets, bf = _facet_sets(m)
+    find = sets[a["fvar"]]
+    if a["meth"] == "normals" and find is None:
+        find = bf.astype(np.int32)
+    if find is not None:
+        find = c("find", find)
+    nf = m.facets.shape[1] if find is None else len(find)
+    # facet reference points: the same bytes in a shared (d-1, 2) and a per-facet (d-1, 2, 1) layout
+    base = np.linspace(0.2, 0.4, 2 * (d - 1)).reshape(d - 1, 2)
+    if a["xvar"] == "shared":
+        Xp = base.copy()
+    elif a["xvar"] == "shared-1pt":
+        Xp = base[:, :1].copy()
+    elif a["xvar"] == "perfacet-1pt":
+        Xp = np.repeat(base[:, :1, None], nf, axis=1).copy() if nf != 2 else base.reshape(d - 1, 2, 1).copy()
+    else:
+        Xp = np.repeat(base[:, None, :], nf, axis=1).copy()
+    Xp = c("X", Xp)
+    if a["meth"] == "normals":
+        tind = c("tind", np.asarray(m.f2t[0, find]))
+        x = mp.G(Xp, find)
+        Y = mp.invF(x, tind=tind)
+        out = [mp.normals(Y, tind, find, m.t2f), x]
+    else:
+        out = [getattr(mp, a["meth"])(Xp, find)]
+    fp = ("facet", a["meth"], a["xvar"], a["fvar"])
+    warm = env.note(("mapping", a["mid"], a["iso"]), fp)
+    seen = env.used[("mapping", a["mid"], a["iso"])]
+    other_find = warm and any(z[0] == "facet" and z[3] != a["fvar"] for z in seen if len(z) == 4)
+    flags = {"warm:facet-map-other-facet-set": other_find,
+             "warm:facet-map-other-facet-set-of-equal-length": other_find and a["fvar"] in ("A", "B", "A64") and
+             any(len(z) == 4 and z[3] in ("A", "B", "A64") and z[3] != a["fvar"] for z in seen),
+             "facet-map:" + type(mp).__name__ + ":" + a["meth"]: True, "__mutated__": c.mutated()}
+    return [np.asarray(o) for o in out], [m], flags, ("mapping-facet:" + a["meth"], type(mp).__name__, warm)
+
+
+def op_facet_basis(rng, specs):
+    mid = str(rng.choice(_mesh_ids(specs, kinds=["tri", "quad", "tet", "hex", "line"], unit=False)))
+    kind = specs.meshes[mid]["kind"]
+    return dict(mid=mid, ename=str(rng.choice(ELEMS_BY_KIND[kind])),
+                fvar=str(rng.choice(["none", "A", "B", "named", "interior"])), side=int(rng.integers(2)))
+
+
+def run_facet_basis(env, a):
+    import skfem
+    m, e = env.mesh(a["mid"]), env.elem(a["ename"])
+    c = Caller(env)
+    if a["fvar"] == "interior":
+        b = skfem.InteriorFacetBasis(m, e, side=a["side"])
+    elif a["fvar"] == "named":
+        b = skfem.FacetBasis(m, e, facets="b")
+    else:
+        find = _facet_sets(m)[0][a["fvar"]]
+        b = skfem.FacetBasis(m, e, facets=None if find is None else c("facets", find))
+    warm = env.note(("elem", a["ename"]), ("facet", a["mid"], a["fvar"]))
+    res = [np.array(b.basis[0][0]), np.array(b.basis[-1][0]), np.array(b.normals), b.dx, np.asarray(b.element_dofs),
+           np.asarray(b.find), np.asarray(b.tind)]
+    g = b.basis[-1][0].grad
+    if g is not None:
+        res.append(g)
+    return res, [m], {"warm:facet-basis-element-reused": warm, "__mutated__": c.mutated()}, \
+        ("facet-basis:" + a["fvar"], "element-object+mesh-lazies", warm)
+
+
+def op_dofs(rng, specs):
+    mid = str(rng.choice(_mesh_ids(specs, unit=False)))
+    kind = specs.meshes[mid]["kind"]
+    return dict(mid=mid, ename=str(rng.choice(ELEMS_BY_KIND[kind])),
+                what=str(rng.choice(["all", "named", "facets-array", "elements", "predicate", "keep", "drop", "skip", "union",
+                                     "by-name", "sort", "nodes"])))
+
+
+def _view_parts(v):
+    out = [np.asarray(v.flatten())]
+    for nm in ("nodal_ix", "facet_ix", "edge_ix", "interior_ix"):
+        x = getattr(v, nm)
+        out.append(np.asarray(x) if isinstance(x, np.ndarray) else np.frombuffer(repr(x).encode(), dtype=np.uint8))
+    return out
+
+
+def run_dofs(env, a):
+    """get_dofs of a pooled basis in its spellings and the DofsView algebra on the views."""
+    b = env.basis(a["mid"], a["ename"])
+    m = env.mesh(a["mid"])
+    s = env.specs.meshes[a["mid"]]
+    c = Caller(env)
+    w = a["what"]
+    names = list(dict.fromkeys(b.elem.dofnames))
+    med = float(np.median(s["p"][0]))
+    if w == "all":
+        out = _view_parts(b.get_dofs())
+    elif w == "named":
+        out = _view_parts(b.get_dofs("b"))
+    elif w == "facets-array":
+        out = _view_parts(b.get_dofs(facets=c("facets", np.asarray(m.boundary_facets())[:3])))
+    elif w == "elements":
+        out = _view_parts(b.get_dofs(elements=c("elements", np.arange(max(1, m.t.shape[1] // 2), dtype=np.int32))))
+    elif w == "predicate":
+        out = _view_parts(b.get_dofs(lambda x: x[0] <= med))
+    elif w == "keep":
+        out = _view_parts(b.get_dofs().keep([names[0]]))
+    elif w == "drop":
+        out = _view_parts(b.get_dofs().drop([names[-1]]))
+    elif w == "skip":
+        out = _view_parts(b.get_dofs(skip=[names[0]]))
+    elif w == "union":
+        v1, v2 = b.get_dofs(lambda x: x[0] <= med), b.get_dofs(lambda x: x[0] >= med)
+        out = _view_parts(v1 | v2) + _view_parts(v1) + _view_parts(v2)
+    elif w == "by-name":
+        v = b.get_dofs()
+        out = [v.all(names[0]), {k: np.asarray(x) for k, x in v.nodal.items()}, {k: np.asarray(x) for k, x in v.facet.items()},
+               {k: np.asarray(x) for k, x in v.interior.items()}]
+    elif w == "sort":
+        out = [np.asarray(b.get_dofs().sort())]
+    else:
+        out = _view_parts(b.get_dofs(nodes=c("nodes", np.asarray(m.boundary_nodes())[:3])))
+    warm = env.note(("basis", a["mid"], a["ename"]), ("dofs", w))
+    return out, [m], {"warm:basis-reused": warm, "__mutated__": c.mutated(), "catalogue:dofs": True}, \
+        ("dofs:" + w, "basis+dofs-object", warm)
+
+
+def op_project(rng, specs):
+    mid = str(rng.choice(_mesh_ids(specs, unit=False)))
+    kind = specs.meshes[mid]["kind"]
+    return dict(mid=mid, ename=str(rng.choice(SCALAR_ELEMS[kind])), what=str(rng.choice(["function", "field", "subset"])))
+
+
+def run_project(env, a):
+    b = env.basis(a["mid"], a["ename"])
+    m = env.mesh(a["mid"])
+    c = Caller(env)
+    if a["what"] == "function":
+        out = b.project(lambda x: 1.0 + x[0] + 0.5 * x[-1] ** 2)
+    elif a["what"] == "field":
+        y = c("y", np.random.default_rng(5).integers(-8, 9, size=b.N) / 8)
+        out = b.project(b.interpolate(y))
+    else:
+        out = b.project(lambda x: 1.0 + x[0], elements=c("elements", np.arange(max(1, m.t.shape[1] // 2), dtype=np.int32)))
+    warm = env.note(("basis", a["mid"], a["ename"]), ("project", a["what"]))
+    return [np.asarray(out)], [m], {"warm:basis-reused": warm, "__mutated__": c.mutated(), "catalogue:project": True}, \
+        ("project:" + a["what"], "basis", warm)
+
+
+PRE = {"dofs": pre_basis_use, "project": pre_basis_use, "form": pre_form, "mapping": pre_mapping, "mapping-facet": pre_mapping, "asm": pre_basis_use,
+       "probe": pre_basis_use, "basis": pre_elem, "global": pre_elem, "lbasis": pre_elem, "facet-basis": pre_elem}
+
+OPS = [("derive", op_derive, run_derive, 2), ("dofs", op_dofs, run_dofs, 2), ("project", op_project, run_project, 1),
+       ("form", op_form, run_form, 4), ("mapping-facet", op_mapping_facet, run_mapping_facet, 3),
+       ("facet-basis", op_facet_basis, run_facet_basis, 2),
+       ("basis", op_basis, run_basis, 3), ("global", op_global, run_global, 3), ("lbasis", op_lbasis, run_lbasis, 3),
        ("mapping", op_mapping, run_mapping, 4), ("finder", op_finder, run_finder, 1), ("asm", op_asm, run_asm, 3),
        ("probe", op_probe, run_probe, 2), ("solve", op_solve, run_solve, 3), ("eig", op_eig, run_eig, 1),
-       ("transform", op_transform, run_transform, 3), ("bc", op_bc, run_bc, 1)]
+       ("transform", op_transform, run_transform, 5), ("bc", op_bc, run_bc, 2)]
 
 
 def classify(opname, args, detail, exc=None):
@@ -598,21 +1398,38 @@ def classify(opname, args, detail, exc=None):
     return f"{opname}:{args.get('ename', args.get('name', args.get('what', args.get('meth', ''))))}".split("(")[0]
 
 
-def program(ctx, k):
+def program(ctx, k, ops=None, nmesh=None, nsteps=None, tweak=None):
     rng = ctx.rng()
     specs = Specs(ctx, rng)
+    if tweak:
+        tweak(specs, rng)
+    OPS_ = OPS if ops is None else [o for o in OPS if o[0] in ops]
+    if ops is not None:
+        OPS_ = [(o[0], o[1], o[2], ops[o[0]]) for o in OPS_]
+    if nmesh:
+        # a focused program: few meshes, so that the same pooled basis / mapping / form meets many different uses
+        ids = _mesh_ids(specs, unit=False)
+        keep = set(str(i) for i in rng.choice(ids, size=min(nmesh, len(ids)), replace=False))
+        specs.meshes = {i: v for i, v in specs.meshes.items() if v.get("unit") or i in keep}
     readonly = bool(k % 2)
     pool = Env(specs, pooled=True, readonly=readonly)
     fresh = Env(specs, pooled=False)
     if readonly:
         ctx.reached("readonly-pass")
-    nsteps = ctx.scale(30, 120)
-    weights = np.array([w for *_, w in OPS], dtype=float)
+    nsteps = nsteps or ctx.scale(30, 120)
+    weights = np.array([w for *_, w in OPS_], dtype=float)
     trace = []
+    sent = set()
     np_state = np.random.get_state()[1][:4].copy()
     for step in range(nsteps):
-        name, sampler, runner, _ = OPS[int(rng.choice(len(OPS), p=weights / weights.sum()))]
-        args = sampler(rng, specs)
+        name, sampler, runner, _ = OPS_[int(rng.choice(len(OPS_), p=weights / weights.sum()))]
+        try:
+            args = sampler(rng, specs)
+        except ValueError:
+            if not nmesh:
+                raise
+            ctx.drop("op-not-applicable:no-mesh-of-the-kind-in-the-focused-pool")
+            continue
         trace.append((name, args))
         try:
             ref, _, _, _ = runner(fresh, args)
@@ -626,11 +1443,21 @@ def program(ctx, k):
         # pooled execution
         try:
             # operands of the pooled run: snapshot after the objects exist, before the call
-            if name in ("transform", "basis", "global", "mapping", "finder", "asm", "probe"):
+            if "mid" in args:
                 pool.mesh(args["mid"])
             pre_objs = [pool.mesh(args["mid"])] if "mid" in args else []
+            if "mid" in args and specs.meshes[args["mid"]].get("derived"):
+                # a derived mesh shares arrays with the pooled meshes it was derived from: they are operands too
+                pre_objs += [pool.mesh(i) for i in ancestors(specs, args["mid"])]
+                sm = specs.meshes[args["mid"]]
+                ctx.reached("op-on-derived-mesh:" + ("order2" if sm.get("order2") else "dg" if sm.get("dg") else "first-order"))
+            if name == "derive" and not args.get("full"):
+                pre_objs = [pool.mesh(i) for i in [args["parent"]] + ancestors(specs, args["parent"])]
             if name in ("solve", "eig", "bc"):
                 pre_objs = list(specs.systems[args["sysid"]])
+            if name in PRE:
+                # (building the pooled objects the step is going to use is part of the step, not of the snapshot)
+                pre_objs = pre_objs + PRE[name](pool, args)
             before = snapshot(pre_objs)
             got, operands, flags, key = runner(pool, args)
         except Skip:
@@ -646,6 +1473,23 @@ def program(ctx, k):
         ctx.check("pooled-equals-fresh", verdict != "different", mech=classify(name, args, detail), op=name, args=args,
                   difference=detail, step=step, readonly=readonly,
                   history=[t[0] + ":" + str(t[1].get("ename", t[1].get("mid", t[1].get("name", "")))) for t in trace[-6:]])
+        sub = name + ":" + str(args.get("what", args.get("meth", args.get("how", args.get("name", "")))))
+        if verdict == "bitwise" and name != "eig" and FRESH_PROCESS and \
+                ((k % 3 == 0 and step % 10 == k % 10) or (k % 12 == 0 and sub not in sent)):
+            # process-wide state (class attributes, module-level dicts, memo tables) is shared by the pool AND the
+            # in-process fresh replay: the reference of a sample of steps comes from a process that ran nothing else
+            sent.add(sub)
+            out = fresh_process_digest(specs, name, args)
+            if "digest" in out:
+                here = [digest(x) for x in flat_result(ref)]
+                ctx.check("pooled-equals-fresh", out["digest"] == here,
+                          mech="differs-from-fresh-process:" + classify(name, args, ""), op=name, args=args, step=step,
+                          parts_differing=lambda: [i for i, (p_, q_) in enumerate(zip(out["digest"], here)) if p_ != q_][:6],
+                          history=[t[0] + ":" + str(t[1].get("ename", t[1].get("mid", t[1].get("name", "")))) for t in trace[-6:]])
+                ctx.reached("fresh-process-reference")
+                ctx.reached("fresh-process-reference:" + name)
+            else:
+                ctx.drop("fresh-process-reference-failed:" + name + ":" + str(out.get("error", ""))[:40])
         ch = changed(before, pre_objs) + [("local", nm) for nm in flags.pop("__mutated__", [])]
         ctx.check("operands-unchanged", not ch, mech=f"operand-mutated:{name}:{args.get('what', '')}", op=name, args=args,
                   changed=[str(c) for c in ch[:6]], step=step)
@@ -658,6 +1502,138 @@ def program(ctx, k):
         ctx.notes.get("numpy_global_rng_reseeded_by_library", False)
     ctx.sample({"program": k, "readonly_operands": readonly, "steps": len(trace),
                 "first_ops": [t[0] + ":" + str(t[1]) for t in trace[:5]]}, per_family=2)
+
+
+# ------------------------------------------------------------------ a really fresh process per operation
+_SERVER_CODE = r"""
+import sys, os, pickle, struct, warnings, logging
+warnings.simplefilter("ignore")
+logging.getLogger("skfem").setLevel(logging.ERROR)
+import numpy, scipy.sparse, scipy.sparse.linalg, scipy.spatial, scipy.linalg, skfem, skfem.models.poisson
+import rv.monitors.c04
+import rv.monitors.c15 as M          # imports only: this process never executes an operation of the library
+inp, out = sys.stdin.buffer, sys.stdout.buffer
+while True:
+    hdr = inp.read(8)
+    if len(hdr) < 8:
+        break
+    req = inp.read(struct.unpack("<Q", hdr)[0])
+    r, w = os.pipe()
+    pid = os.fork()
+    if pid == 0:                     # the child: a process in which nothing has been computed yet
+        os.close(r)
+        try:
+            res = M.child_run(pickle.loads(req))
+        except BaseException as e:
+            res = {"error": type(e).__name__ + ":" + repr(e)[:200]}
+        data = pickle.dumps(res)
+        with os.fdopen(w, "wb") as f:
+            f.write(data)
+        os._exit(0)
+    os.close(w)
+    with os.fdopen(r, "rb") as f:
+        data = f.read()
+    os.waitpid(pid, 0)
+    out.write(struct.pack("<Q", len(data)) + data)
+    out.flush()
+"""
+_SERVER = None
+
+
+def child_run(req):
+    """Runs in a forked child of the import-only server: one operation on freshly built objects, nothing else."""
+    import warnings
+    warnings.simplefilter("ignore")
+    runner = {o[0]: o[2] for o in OPS}[req["op"]]
+    with np.errstate(all="ignore"):
+        res = runner(Env(req["specs"], pooled=False), req["args"])[0]
+    return {"digest": [digest(x) for x in flat_result(res)]}
+
+
+def _server():
+    global _SERVER
+    import atexit
+    import subprocess
+    import sys
+    if _SERVER is not None and _SERVER.poll() is None:
+        return _SERVER
+    from ..engine import REPO, VERIF
+    env = dict(os.environ, PYTHONPATH=os.pathsep.join([REPO, VERIF, os.path.join(VERIF, ".deps")]), PYTHONHASHSEED="0",
+               PYTHONDONTWRITEBYTECODE="1")
+    _SERVER = subprocess.Popen([sys.executable, "-B", "-c", _SERVER_CODE], stdin=subprocess.PIPE, stdout=subprocess.PIPE,
+                               stderr=subprocess.DEVNULL, env=env)
+    atexit.register(_stop_server)
+    return _SERVER
+
+
+def _stop_server():
+    global _SERVER
+    srv, _SERVER = _SERVER, None
+    if srv is not None:
+        try:
+            srv.stdin.close()
+            srv.wait(timeout=5)
+        except Exception:
+            srv.kill()
+
+
+def fresh_process_digest(specs, name, args):
+    """Digest of the result of ONE operation computed in a process that has executed nothing before it (forked from
+    a server that only imported the modules).  None when the reference could not be obtained."""
+    import pickle
+    import struct
+    try:
+        srv = _server()
+        data = pickle.dumps({"specs": specs, "op": name, "args": args})
+        srv.stdin.write(struct.pack("<Q", len(data)) + data)
+        srv.stdin.flush()
+        hdr = srv.stdout.read(8)
+        if len(hdr) < 8:
+            raise EOFError("server gone")
+        return pickle.loads(srv.stdout.read(struct.unpack("<Q", hdr)[0]))
+    except BaseException:
+        _stop_server()       # (a case timeout in the middle of a request would desynchronise the pipe)
+        raise
+
+
+def form_programs(ctx, k):
+    """Focused programs: a handful of pooled Form objects assembled over and over on the few pooled cell / facet bases
+    of two or three meshes (different local sizes, different meshes, random order), interleaved with the other
+    consumers of the same bases."""
+    program(ctx, k, ops={"form": 8, "asm": 1, "probe": 1, "mapping": 1, "transform": 1}, nmesh=[2, 3][k % 2],
+            nsteps=ctx.scale(24, 80))
+
+
+def facet_programs(ctx, k):
+    """Focused programs on the facet side: G / detDG / normals of one pooled mapping object with changing facet
+    subsets (equal length, other dtype, all facets) and point layouts, facet bases built from pooled mesh and
+    element objects, facet forms."""
+    program(ctx, k, ops={"mapping-facet": 6, "facet-basis": 3, "mapping": 2, "form": 2, "transform": 1},
+            nmesh=[1, 2][k % 2], nsteps=ctx.scale(24, 80))
+
+
+def buffer_programs(ctx, k):
+    """Focused programs in which the caller refills ONE point buffer in place between calls (same object, same
+    address, same shape, other content) for lbasis of the elements that keep tables and for the mapping methods."""
+    def tweak(specs, rng):
+        specs.lbasis_kinds = [["line"], ["quad"], ["line", "quad"]][k % 3]
+        specs.lbasis_nelems = None
+        specs.inplace_bias = 0.8
+        specs.mapping_xvars, specs.mapping_tvars = ["shared", "percell"], ["none", "int32-two"]
+        for kind in specs.points:                 # equal counts only: every refill has the shape of the last one
+            specs.points[kind] = [q for q in specs.points[kind] if q.shape[1] == 4]
+        if k % 4:                                 # mostly cells whose Jacobian depends on the point
+            specs.meshes = {i: v for i, v in specs.meshes.items() if v.get("unit") or v["kind"] in ("quad", "hex")}
+    program(ctx, k, ops={"lbasis": 6, "mapping": 5, "probe": 1, "basis": 1, "form": 1}, nmesh=1, nsteps=ctx.scale(24, 80),
+            tweak=tweak)
+
+
+def derived_programs(ctx, k):
+    """Focused programs on derived meshes: results that share arrays with their operand (translated/scaled share t,
+    with_* share p, t and tag arrays, from_mesh passes t through) are KEPT in the pool and operated on further
+    (second-order meshes touch Mesh.dofs), while the meshes they were derived from keep being used."""
+    program(ctx, k, ops={"derive": 4, "transform": 4, "basis": 2, "asm": 2, "form": 2, "mapping": 2, "facet-basis": 1,
+                         "finder": 1, "mapping-facet": 1}, nmesh=[2, 3][k % 2], nsteps=ctx.scale(26, 80))
 
 
 # ------------------------------------------------------------------ retained objects
@@ -928,7 +1904,11 @@ def fresh_interpreter(ctx, k):
     ctx.nontrivial("fresh-interpreter", name)
 
 
-FAMILIES = [Family("programs", program, 160, 3200, budget={"quick": 80, "thorough": 1500}),
+FAMILIES = [Family("programs", program, 100, 3200, budget={"quick": 80, "thorough": 1500}),
+            Family("form-programs", form_programs, 40, 800, budget={"quick": 30, "thorough": 600}),
+            Family("facet-programs", facet_programs, 40, 800, budget={"quick": 30, "thorough": 600}),
+            Family("derived-programs", derived_programs, 40, 800, budget={"quick": 30, "thorough": 600}),
+            Family("buffer-programs", buffer_programs, 24, 480, budget={"quick": 20, "thorough": 400}),
             Family("retained-basis", retained_basis, 48, 960, budget={"quick": 40, "thorough": 600}),
             Family("composite-bases", composite_bases, 16, 320, budget={"quick": 20, "thorough": 300}),
             Family("fresh-interpreter", fresh_interpreter, 4, 8, budget={"quick": 60, "thorough": 120})]
